@@ -52,23 +52,82 @@ theorem _root_.KafVerif.C01.ack_step_durable {cfg : Cfg} {s s' : State} {t : Nat
     simp
   exact ⟨hacked.1, KafVerif.C01.ack_durable hr hacked.2⟩
 
+def ackedNotDurable (v : Variant) (evs : List Ev) : Bool :=
+  match run v (init ⟨0, 0⟩) evs with
+  | some s => s.acked.any fun b => !durableB s b
+  | none => false
+
+/-! ### `BuildSegment` as a step that may fail (the error exit of `prepareFlush` sits AFTER `Drain`) -/
+
+/-- **`BuildSegment` is total on what `AppendBatch` accepts.**  The source's `BuildSegment` returns an error for an empty
+batch list and for a batch with an empty payload (its writes into a `bytes.Buffer` do not fail); `prepareFlush` calls it
+only with a non-empty list, and `AppendBatch` accepts a batch only when `PatchRecordBatchBaseOffset` can write its
+first 8 bytes — whatever record count (negative, zero, huge) and lengths the header declares. -/
+theorem _root_.KafVerif.C01.build_total_on_accepted (bs : List Batch) (hne : bs ≠ []) (hl : ∀ b ∈ bs, 8 ≤ b.len) :
+    buildOk false bs = true :=
+  buildOk_of_lens hne (fun b hb => Nat.le_trans (by decide) (hl b hb))
+
+/-- …so in every reachable state of the code as it is, the `BuildSegment` call of the next `prepareFlush` succeeds, and
+`prepareFlush` never takes the error exit that drops the drained batches. -/
+theorem _root_.KafVerif.C01.build_never_fails_reachable {cfg : Cfg} {s : State} {m : Mem} (h : Reachable fixed cfg s)
+    (hm : s.mem = some m) : (prepareFlush fixed s.fault m).2 ≠ .err := by
+  have mi := memInv_of (reachable_inv h) hm
+  rcases prepareFlush_cases fixed s.fault m with ⟨hp, _⟩ | ⟨_, b0, bs, _, _, hp⟩ | ⟨hf, b0, bs, hbuf, hbf, _⟩
+  · rw [hp]; simp
+  · rw [hp]; simp
+  · have hinf := mi.infl hf
+    have hcb : Contig (b0 :: bs) (segEnd m.segments) m.next := by
+      have := mi.contig; rw [hinf, hbuf] at this; simpa using this
+    have := requeue_of_buildFails sound_fixed (by simp) hcb hbf
+    simp [fixed] at this
+
+/-- **C01 for every sound shape.**  `ack_durable` with `BuildSegment` failing in ANY way — by a stricter input rule
+(`strictBuild`) and by the fault oracle (event `buildFault`) — provided the error exit of `prepareFlush` re-queues
+what it drained (`requeueBuild`); or with the source's rule and the source's error exit (`fixed`, by
+`build_total_on_accepted`). -/
+theorem _root_.KafVerif.C01.ack_durable_sound {v : Variant} (hv : Sound v) {cfg : Cfg} {s : State} (h : Reachable v cfg s)
+    {b : Batch} (hb : b ∈ s.acked) : Durable s b := by
+  obtain ⟨L, hc, _⟩ := core_of_inv (reachable_inv_of hv h)
+  exact Comm_durable (hc.acked b hb)
+
+/-- the hardening change: `BuildSegment` rejects a negative declared record count; `prepareFlush` unchanged -/
+def hardened : Variant := { fixed with strictBuild := true }
+/-- the same with the error exit re-queueing the drained batches, and the fault oracle enabled -/
+def hardenedRequeue : Variant := { fixed with strictBuild := true, requeueBuild := true }
+
+theorem sound_hardenedRequeue : Sound hardenedRequeue := ⟨rfl, rfl, rfl, Or.inr rfl⟩
+
+/-- A appends an ordinary batch, B appends a batch whose header declares -1 records; B's Flush drains both, the build
+fails, both are dropped; A's Flush finds an empty buffer, publishes and A is acknowledged. -/
+def buildDropEvs : List Ev :=
+  [.restore, .wf 0 1, .append 1 1 (-1) 72, .flush 1, .flush 0, .pub 0 true]
+
+/-- **witness for the hardening change**: an acknowledged batch that is in no S3 segment. -/
+theorem _root_.KafVerif.C01.strict_build_drops_violates : ackedNotDurable hardened buildDropEvs = true := by decide
+
+/-- the same schedule: the code as it is stores both batches; the re-queueing shape acknowledges nobody (the poisoned
+buffer fails every flush — safe, not live), also with the oracle failing a build of ordinary batches -/
+theorem _root_.KafVerif.C01.strict_build_same_schedule :
+    ackedNotDurable fixed (buildDropEvs.take 4 ++ [.seg 1 true, .idx 1 true, .finish 1, .pub 1 true, .flush 0, .pub 0 true]) = false ∧
+    ((run fixed (init ⟨0, 0⟩) (buildDropEvs.take 4 ++ [.seg 1 true, .idx 1 true, .finish 1, .pub 1 true, .flush 0, .pub 0 true])).map
+      fun s => s.acked.length) = some 2 ∧
+    ((run hardenedRequeue (init ⟨0, 0⟩) (buildDropEvs.take 5)).map fun s => (s.acked.length, s.pcs 0, s.pcs 1)) =
+      some (0, .failed ⟨0, 0, 1, 1, 72⟩, .failed ⟨1, 1, 1, -1, 72⟩) ∧
+    ((run hardenedRequeue (init ⟨0, 0⟩) [.restore, .wf 0 1, .buildFault true, .flush 0, .buildFault false, .wf 1 2, .flush 1]).map
+      fun s => (s.pcs 0, (s.mem.map (·.inflight.length)))) = some (.failed ⟨0, 0, 1, 1, 72⟩, some 2) := by decide
+
 /-! ### non-vacuity: reachable states with acknowledged batches, failures and waiters exist -/
 
 /-- B appends, A appends; A's Flush drains both and its index upload fails; B, waiting in Flush,
 wakes up — pre-fix: finds nothing to flush and is acknowledged. -/
 def lostAckEvs : List Ev :=
-  [.restore, .append 0 1, .append 1 1, .flush 0, .flush 1, .seg 0 true, .idx 0 false, .finish 0,
+  [.restore, .wf 0 1, .wf 1 1, .flush 0, .flush 1, .seg 0 true, .idx 0 false, .finish 0,
    .wake 1, .readNext 1, .pub 1 true]
 
 /-- the same schedule on the repaired code: the waiter re-uploads the re-queued batches -/
 def lostAckEvsFixed : List Ev :=
-  [.restore, .append 0 1, .append 1 1, .flush 0, .flush 1, .seg 0 true, .idx 0 false, .finish 0,
+  [.restore, .wf 0 1, .wf 1 1, .flush 0, .flush 1, .seg 0 true, .idx 0 false, .finish 0,
    .wake 1, .seg 1 true, .idx 1 true, .finish 1, .pub 1 true]
-
-def ackedNotDurable (v : Variant) (evs : List Ev) : Bool :=
-  match run v (init ⟨0, 0⟩) evs with
-  | some s => s.acked.any fun b => !durableB s b
-  | none => false
 
 /-- **pre-fix witness**: an acknowledged batch that is in no S3 segment. -/
 theorem _root_.KafVerif.C01.old_violates : ackedNotDurable old lostAckEvs = true := by decide
